@@ -159,6 +159,9 @@ bool Action::stop() {
   if (timer_ev_ != nullptr)
     timer_ev_->disable();
 
+  //! 撤消已派发但尚未执行的回调，停止后不应再有通知
+  cancelDispatchedCallback();
+
   is_base_func_invoked_ = false;
 
   onStop();
